@@ -57,7 +57,10 @@ def cli_case(draw):
         dialect = None
     return {"kind": "cli", "files": files, "dialect": dialect, "listo": draw(st.sampled_from(LISTO_VALUES)),
             "stdin": draw(st.integers(0, 3)) == 0,
-            "extra": draw(st.sampled_from([[], [], [], ["--nonsense"], ["-z"], ["--help"], ["--listo"], ["--"]])),
+            "extra": draw(st.sampled_from([[], [], [], [], ["--nonsense"], ["-z"], ["--help"], ["--listo"], ["--"],
+                                           ["--dump-token-maps"], ["--dump-token-maps=-"], ["-D", "-"], ["-D"],
+                                           ["--dump-token-maps", "-"], ["-d", "6502"], ["-d"], ["-l", "3"], ["-l"],
+                                           ["--dialect"], ["--dia=ARM"], ["--help=1"], ["-h"], ["-Dnonexistent/dir/x"]])),
             "missing": draw(st.integers(0, 9)) == 0,
             "variant": draw(st.sampled_from(VARIANTS))}
 
